@@ -69,9 +69,19 @@ func c22Build(hist []string) (*c22Log, error) {
 }
 
 // recover writes the given segment content into a fresh directory and reopens it.
+// c22Panic: aof.New panicked on the image (neither an error nor a prefix state)
+type c22Panic struct{ msg string }
+
+func (p c22Panic) Error() string { return "reopen PANICKED: " + p.msg }
+
 func c22Recover(l *c22Log, content []byte) (state string, openErr error) {
 	d := newScratch()
 	defer os.RemoveAll(d)
+	defer func() {
+		if r := recover(); r != nil {
+			state, openErr = "", c22Panic{fmt.Sprint(r)}
+		}
+	}()
 	os.MkdirAll(filepath.Join(d, "wal"), 0o755)
 	if err := os.WriteFile(filepath.Join(d, "wal", filepath.Base(l.seg)), content, 0o644); err != nil {
 		return "", err
@@ -125,6 +135,9 @@ func c22RunX(hist []string, pairs bool, unsynced int, innerOnly bool) c22Res {
 	judge := func(kind string, content []byte, desc string) {
 		r.images++
 		s, err := c22Recover(l, content)
+		if p, ok := err.(c22Panic); ok {
+			r.viol = append(r.viol, [2]string{kind + "-panic", fmt.Sprintf("%s: %s (neither an error nor the state of a prefix)", desc, p.Error())})
+		}
 		if err != nil {
 			r.refused++
 			return
@@ -166,16 +179,108 @@ func c22RunX(hist []string, pairs bool, unsynced int, innerOnly bool) c22Res {
 	return r
 }
 
+// c22LongHistories: long logs whose whole content is unsynced (round-10 seed: checksums verified
+// for the newest entries only). Mutation i is alphabet[(i*stride) % len], strides coprime with len.
+func c22LongHistories(n int) [][]string {
+	var out [][]string
+	for _, stride := range []int{3, 5} {
+		h := make([]string, n)
+		for i := range h {
+			h[i] = c20Alphabet[(i*stride)%len(c20Alphabet)]
+		}
+		out = append(out, h)
+	}
+	return out
+}
+
+// c22Long: the whole log is unsynced; exactly ONE entry is torn while every other byte reached the
+// disk: for every entry e and both fills, every single byte of e, every suffix [s,end_e) and every
+// prefix [start_e,t) of e replaced. Reopen must fail or yield the state of some prefix.
+func c22Long(hist []string) c22Res {
+	hookMu.Lock()
+	defer hookMu.Unlock()
+	var r c22Res
+	l, err := c22Build(hist)
+	if err != nil {
+		r.viol = append(r.viol, [2]string{"setup", err.Error()})
+		return r
+	}
+	defer os.RemoveAll(l.dir)
+	allowed := map[string]bool{}
+	for _, m := range l.models {
+		allowed[m] = true
+	}
+	n := len(l.data)
+	r.window = n
+	judge := func(e, s, t int, fill byte) {
+		c := append([]byte(nil), l.data...)
+		same := true
+		for i := s; i < t; i++ {
+			if c[i] != fill {
+				same = false
+			}
+			c[i] = fill
+		}
+		if same {
+			return
+		}
+		r.images++
+		st, err := c22Recover(l, c)
+		if p, ok := err.(c22Panic); ok {
+			r.viol = append(r.viol, [2]string{fmt.Sprintf("long-torn-%02x-panic", fill), fmt.Sprintf("log of %d entries (%d bytes, all unsynced) complete except entry %d (%s) torn: bytes [%d,%d) = 0x%02X: %s (neither an error nor the state of a prefix)", len(hist), n, e+1, hist[e], s, t, fill, p.Error())})
+		}
+		if err != nil {
+			r.refused++
+			return
+		}
+		r.opened++
+		if !allowed[st] {
+			r.viol = append(r.viol, [2]string{fmt.Sprintf("long-torn-%02x", fill), fmt.Sprintf("log of %d entries (%d bytes, all unsynced) complete except entry %d (%s) torn: bytes [%d,%d) = 0x%02X: store opened with {%s}, which no prefix of the history produces", len(hist), n, e+1, hist[e], s, t, fill, st)})
+		}
+	}
+	prev := 0
+	for e, end := range l.bounds {
+		if end > n {
+			end = n
+		}
+		for _, fill := range []byte{0x00, 0xFF} {
+			for s := prev; s < end; s++ {
+				judge(e, s, s+1, fill)
+				if s > prev {
+					judge(e, s, end, fill)
+					judge(e, prev, s, fill)
+				}
+			}
+			judge(e, prev, end, fill)
+		}
+		prev = end
+	}
+	return r
+}
+
 func c22(c *report.Check) {
 	defer os.RemoveAll(scratchRoot)
 	depth := 3
+	longN := 40
 	if c.Thorough() {
 		depth = 4
+		longN = 72
 	}
 	hists := c20Histories(depth)
+	nShort := len(hists)
+	hists = append(hists, c22LongHistories(longN)...)
 	dist := report.NewDistinct(6)
 	results := runSharded(c, "C22", len(hists), func(i int) any {
 		h := hists[i]
+		if i >= nShort {
+			r := c22Long(h)
+			j := c20JSON{Hist: []string{fmt.Sprintf("long%d", len(h)), h[0], h[1]}, Images: r.images, Recoveries: r.opened, Rejected: r.refused, FsOps: r.window}
+			if len(r.viol) > 0 {
+				j.Hist = h
+				j.Viol = append(j.Viol, r.viol[0])
+			}
+			return j
+		}
 		// quick: byte-pair holes inside the last entry, truncation over the last two; thorough: both over two entries
 		unsyncedPairs := 1
 		if c.Thorough() {
@@ -220,7 +325,7 @@ func c22(c *report.Check) {
 	c.Set("images_opened", opened)
 	c.Set("images_refused", refused)
 	c.Set("distinct_nontrivial", dist.N())
-	c.Set("rule", fmt.Sprintf("for the log of every mutation history of length <= %d over %v (clean stop): every truncation offset within the last two entries, and every (s,t) with bytes [s,t) replaced by 0x00 and by 0xFF, the file cut at t or left complete (blocks persisted out of order), within the last %s; each image is reopened with the real aof.New: it must fail, or the recovered simple values and prefix children must equal the model state of some prefix of the history; class = (history length, last mutation, window size bucket)", depth, c20Alphabet, map[bool]string{true: "two entries", false: "entry"}[c.Thorough()]))
+	c.Set("rule", fmt.Sprintf("for the log of every mutation history of length <= %d over %v (clean stop): every truncation offset within the last two entries, and every (s,t) with bytes [s,t) replaced by 0x00 and by 0xFF, the file cut at t or left complete (blocks persisted out of order), within the last %s; plus %d long histories of %d mutations whose whole log is unsynced and in which exactly one entry is torn (every single byte, every suffix and every prefix of every entry replaced by 0x00 / 0xFF, all other bytes intact); each image is reopened with the real aof.New: it must fail, or the recovered simple values and prefix children must equal the model state of some prefix of the history; class = (history length, last mutation, window size bucket)", depth, c20Alphabet, map[bool]string{true: "two entries", false: "entry"}[c.Thorough()], len(hists)-nShort, longN))
 	c.Set("samples", dist.Samples)
 	c.Set("exhaustive", true)
 	c.Assume("single-segment logs (values are small); power loss may drop or zero/one-fill any byte range of the unsynced tail but does not alter synced bytes")
@@ -238,7 +343,11 @@ func c22Replay(c *report.Check, raw []byte) {
 		c.Internal(err.Error())
 		return
 	}
-	for _, res := range []c22Res{c22Run(r.History, false, 2), c22Run(r.History, true, 2)} {
+	legs := []c22Res{c22Run(r.History, false, 2), c22Run(r.History, true, 2)}
+	if len(r.History) > 8 {
+		legs = []c22Res{c22Long(r.History)}
+	}
+	for _, res := range legs {
 		for _, v := range res.viol {
 			fmt.Printf("replay %v: %s: %s\n", r.History, v[0], v[1])
 			c.Violation("replay:"+v[0], v[1], nil)
